@@ -1,6 +1,7 @@
 # Stage B of the corpus generator: struct / enum definitions with attributes, their
 # instantiations, Sample / Model impls (C03) and declaration models (C09).
 import random
+import re
 from corpus import T, P, U8, U16, U32, U64, U128, BOOL, STRING, STR, UNIT, PRIMS_U, PRIMS_I, rust_str
 
 MOD_PREFIX = ["rtc", "gen", "g"]
@@ -75,6 +76,7 @@ class DefGen:
         self.tier = tier
         self.tg = tygen
         self.n = 0
+        self.used_raw = set()
         self.stats = {"definitions": 0, "instantiations": 0, "with_encode": 0, "attrs": {}}
 
     def stat(self, k):
@@ -148,11 +150,14 @@ class DefGen:
     def definition(self, modpath, value_mode):
         r = self.r
         self.n += 1
-        raw_name = (not value_mode) and r.random() < 0.08
-        name = "r#%s" % r.choice(["struct", "enum", "type", "fn", "match"]) + "" if raw_name else "D%d" % self.n
-        if raw_name:
-            # raw keywords can only be used once per module; make unique through the module instead
-            pass
+        name = "D%d" % self.n
+        if (not value_mode) and r.random() < 0.08:
+            # raw keywords can only be used once per module
+            free = [k for k in ["struct", "enum", "fn", "match", "loop"] if (tuple(modpath), k) not in self.used_raw]
+            if free:
+                k = r.choice(free)
+                self.used_raw.add((tuple(modpath), k))
+                name = "r#" + k
         kind = r.choice(["struct", "struct", "enum"])
         ntp = r.choice([0, 0, 1, 1, 2, 3])
         tparams = ["T", "U", "V"][:ntp]
@@ -198,7 +203,7 @@ class DefGen:
             if tparams and r.random() < 0.2:
                 d["defaults"][tparams[-1]] = "u8"
                 self.stat("param_default")
-            if consts and r.random() < 0.5:
+            if consts and (r.random() < 0.5 or any(p in d["defaults"] for p in tparams)):
                 d["defaults"]["N"] = "3"
         d["insts"] = self.instantiations(d)
         return d
@@ -395,7 +400,12 @@ class DefGen:
                 elif d["bounds"].get(p) or d["where"]:
                     env[p] = r.choice([U8, U32, STRING, BOOL, T("vec", [U8]), T("option", [U16])])
                 else:
-                    env[p] = self.tg.ty(r.choice([0, 0, 1, 2]), need_enc=d["value"], allow_bitvec=False)
+                    while True:
+                        env[p] = self.tg.ty(r.choice([0, 0, 1, 2]), need_enc=d["value"], allow_bitvec=False)
+                        # a parameter instantiated with (a wrapper of) PhantomData would erase members declared as `T`:
+                        # wrappers of PhantomData are a grey zone of C17, keep them out of instantiations
+                        if env[p].shallow() != "PhantomData":
+                            break
             for c in d["consts"]:
                 env[c] = r.choice([0, 1, 2, 3, 5])
             key = tuple((k, v.rust() if isinstance(v, T) else v) for k, v in sorted(env.items()))
@@ -601,7 +611,7 @@ class DefGen:
             name = f["rename"] if f["rename"] is not None else f["name"]
             tn = src_text(f["ft"])
             for l in d["lifetimes"]:
-                tn = tn.replace(l + " ", "'static ").replace(l + ">", "'static>")
+                tn = re.sub(re.escape(l) + r"\b", "'static", tn)
             tn = "".join(tn.split())
             return "FieldM { name: %s, ty: %s, check_ty: %s, type_name: %s, docs: &[%s] }" % (
                 ("Some(%s)" % rust_str(name)) if name is not None else "None", did(txt), "false" if f["encoded_as"] else "true", rust_str(tn),
@@ -622,6 +632,38 @@ class DefGen:
         return "        Decl { inst: %s, meta: || ::scale_info::meta_type::<%s>(), path: &[%s], params: &[%s], capture: %d, docs: &[%s], body: %s },\n" % (
             rust_str(inst), inst, ", ".join(rust_str(x) for x in segs), ", ".join(params), cap, ", ".join(rust_str(x) for x in self.docs_expected(d["docs"])), body)
 
+    def tags(self, d):
+        t = set()
+        fs = self.all_fields(d)
+        for f in fs:
+            for k in ("skip", "compact", "encoded_as"):
+                if f[k]:
+                    t.add(k)
+            if f["rename"] is not None:
+                t.add("rename")
+            if f["ft"].kind == "phantom":
+                t.add("phantom")
+            if self.has_self(f["ft"]):
+                t.add("recursive")
+        if d["kind"] == "enum":
+            t.add("enum")
+            for v in d["variants"]:
+                if v["skip"]:
+                    t.add("variant_skip")
+                if v["index"] is not None:
+                    t.add("index")
+                if v["discr"] is not None:
+                    t.add("discriminant")
+        else:
+            t.add("struct_" + d["shape"])
+        if d["tparams"]:
+            t.add("generic")
+        if d["lifetimes"]:
+            t.add("lifetime")
+        if d["consts"]:
+            t.add("const_param")
+        return ",".join(sorted(t))
+
     def generate(self):
         r = self.r
         n_defs = 260 if self.tier == "thorough" else 90
@@ -633,9 +675,6 @@ class DefGen:
             m = r.choice(mods)
             value_mode = r.random() < 0.7
             d = self.definition(m, value_mode)
-            # raw type names must be unique per module
-            if d["name"].startswith("r#") and any(x["name"] == d["name"] and x["mod"] == m for x in defs):
-                d["name"] = "D%d" % self.n
             defs.append(d)
             by_mod.setdefault(tuple(m), []).append(d)
         src = ""
@@ -669,7 +708,7 @@ class DefGen:
                 enc = d["value"] and not has_noinfo
                 me = T("def", [env[p] for p in d["tparams"]], {"path": inst})
                 dp = "%s<%s>" % ("g::" + "::".join(d["mod"] + [d["name"]]), ",".join([env[p].deep() for p in d["tparams"]] + [str(env[c]) for c in d["consts"]]))
-                entries.append((inst, inst, dp, enc))
+                entries.append((inst, inst, dp, enc, self.tags(d)))
                 if enc:
                     impls += self.sample_model_src(d, env)
                 decls += self.decl_src(d, env)
